@@ -71,6 +71,10 @@ class Array(AbstractValueWithQuantityObject, Generic[ValuesType]):
 
     """
 
+    # numpy arrays and numpy numbers on the left side of an operator must defer to the reflected
+    # operators of this class (otherwise numpy computes an object array and the unit is lost).
+    __array_ufunc__ = None
+
     @overload
     def __init__(self, category: Union[str, Quantity]): ...
 
